@@ -123,7 +123,7 @@ SPEC = dict(
     rule=("cases = generated terminating programs (functions incl. bounded recursion and nested calls, loops, try/except/"
           "finally with raised and runtime errors, lists/maps, log output) x break point edit sequences (set/disable/"
           "remove) x scripts over {resume, stepin, stepover, stepout} with break point edits while suspended x "
-          "breakOnStart/breakOnError x 1-4 threads x life cycle (library `lib` and program `main` loaded in steps, debugger attached before any parse / after the library ran / between two evaluations of the same AST / detached and re-attached / after parsing everything; break points on both sides of the attach point) x timing {poll, window = Continue issued exactly between 'marked "
+          "breakOnStart/breakOnError x 1-4 threads x life cycle (library `lib` and program `main` loaded in steps, debugger attached before any parse / after the library ran / between two evaluations of the same AST / detached and re-attached / after parsing everything / by the program itself inside a function call; break points on both sides of the attach point) x timing {poll, window = Continue issued exactly between 'marked "
           "suspended' and Wait via hook points, random delays at the hook points}; plus StopThreads cases. Compared: "
           "same=1 (result, error, log, global scope dump equal to the plain run) and the lines at which threads REPORT "
           "suspension (status/describe commands) against the model run on the visit trace recorded from the real "
@@ -149,11 +149,17 @@ META = dict(
                "trace and (b) the suspend/continue handshake as a transition system; correspondence: debugged vs plain runs of the "
                "real interpreter, reported suspension lines vs the model, recorded handshake traces replayed on the transition system, "
                "directed 'Continue inside the window' schedule"),
-    level_text=("Proof (model): no reachable handshake state has the thread waiting with running=true; a Continue to a thread reported "
-                "suspended is accepted, completes and leaves the thread with enabled steps back to execution; StopThreads releases every "
-                "suspended thread (any number); suspension at an active break point whenever a thread in any debugging situation arrives from another line, no re-suspension on the same line after resume, "
-                "step-in/over/out targets for arbitrary balanced call nesting; the old code's lost resume is a reachable stuck state. "
-                "Transparency of the Go debugger (same result, log, variables) is tested metamorphically, not proved."),
+    level_text=("Proof (model): no reachable handshake state has the thread waiting with running=true; after Continue's check EVERY "
+                "interleaving of controller and thread steps is at most 12 steps long and ends with the thread executing again with the "
+                "command (continue_always_releases); StopThreads on a suspended thread is a schedule of the same transition system and "
+                "releases it (no Continue of another controller in flight); suspension at an active break point whenever a thread in any "
+                "debugging situation arrives from another position (source AND line), no re-suspension on the same line after resume, "
+                "step-in/over/out targets for arbitrary balanced call nesting; attaching never crashes the thread; the old code's lost resume "
+                "is a reachable stuck state. Regenerated facts (type-checked extraction, three-valued): what the debugger's evaluator side "
+                "touches, maps only under the lock on both sides, debugger read at evaluation time, visit functions return nil. "
+                "Transparency of the Go debugger (same result, log, variables) is tested metamorphically, not proved; concurrency of several "
+                "controllers and threads is tested (process survives), not modelled (the model is per thread, break points shared only "
+                "through edits made while that thread is suspended)."),
     level_note=("Trusted: Lean kernel + propext/Classical.choice/Quot.sound; harness (recording wrapper, controller, comparison); Go's "
                 "sync primitives."),
 )
